@@ -100,6 +100,10 @@ pub struct SchemaModel {
     pub subscription: Option<String>,
     /// explicit `schema { ... }` block rendered
     pub schema_block: bool,
+    /// custom scalars carry `@nitrogql_ts_type(...)` in the SDL (the other way, next to the
+    /// `scalarTypes` option, to say which TypeScript type a scalar has)
+    #[serde(default)]
+    pub ts_type_directives: bool,
 }
 
 impl SchemaModel {
